@@ -1,1 +1,40 @@
-fn main(){}
+//! Harness binary for the properties anchored in the `flussab` core crate
+//! (reader, writer, text scanners, combinators).
+mod c15;
+
+use mc_core::report::{parse_cli, write_out, Report};
+use mc_core::Value;
+
+fn main() {
+    mc_core::subject::install_quiet_panic_hook();
+    let cli = parse_cli();
+    let t0 = std::time::Instant::now();
+    if cli.cmd == "replay" {
+        let text = std::fs::read_to_string(cli.file.as_ref().expect("replay needs a file")).unwrap();
+        let v: Value = mc_core::serde_json::from_str(&text).unwrap();
+        let v = if v.get("replay").is_some() { v["replay"].clone() } else { v };
+        let (violated, text) = match v["property"].as_str().unwrap_or("") {
+            "C15" => c15::replay(&v),
+            other => {
+                eprintln!("mc-base: cannot replay property {other:?}");
+                std::process::exit(2);
+            }
+        };
+        println!("{text}");
+        println!("{}", if violated { "REPLAY: property violated" } else { "REPLAY: property holds" });
+        std::process::exit(if violated { 1 } else { 0 });
+    }
+    let mut report = Report::new();
+    let rule: String = match cli.cmd.as_str() {
+        "C15" => {
+            c15::run(cli.tier, &mut report);
+            c15::RULE.into()
+        }
+        other => {
+            eprintln!("mc-base: unknown property {other:?}");
+            std::process::exit(2);
+        }
+    };
+    let v = report.to_json(&cli.cmd, "base", cli.tier.name(), t0.elapsed().as_secs_f64(), &rule);
+    write_out(&cli, &v);
+}
